@@ -257,6 +257,14 @@ def parse_const(c):
     if m: return ("scalar", int(m.group(1), 16), m.group(2))
     m = re.match(r"^ConstValue\(Slice \{ alloc_id: (alloc\d+), meta: (\d+) \}: (.+)\)$", c)
     if m: return ("slice", m.group(1), int(m.group(2)), m.group(3))
+    m = re.match(r"^ConstValue\(Scalar\((alloc\d+)\): (.+)\)$", c)
+    if m: return ("allocref", m.group(1), m.group(2))
+    m = re.match(r"^ValTree\(Branch\(\[(.*)\]\): &'\{erased\} str\)$", c)
+    if m:
+        bs = bytes(int(h, 16) for h in re.findall(r"Leaf\(0x([0-9a-f]+)\): u8", m.group(1)))
+        return ("strlit", bs.decode("utf8", "replace"))
+    m = re.match(r"^ValTree\(Leaf\(0x([0-9a-f]+)\): (\w+)\)$", c)
+    if m: return ("scalar", int(m.group(1), 16), m.group(2))
     if c.startswith("ConstValue(ZeroSized: "):
         return ("zst", c[len("ConstValue(ZeroSized: "):-1].strip())
     return ("named", c)
